@@ -25,7 +25,7 @@ from __future__ import annotations
 
 import ast
 
-from ..model import Program, dotted, AnalysisError
+from ..model import Program, dotted, AnalysisError, const
 from ..report import Result
 from . import ix_common as I
 from . import eo_common as E
@@ -130,6 +130,31 @@ def slice_norm(prog: Program, res: Result, tree=None) -> int:
     else:
         items = [("fixture", x, None) for x in ast.walk(tree) if isinstance(x, ast.FunctionDef)]
     for short, fn, fi in items:
+        # slice.indices(n) normalises start, stop AND step: a site that keeps the first two and drops the third selects the whole interval
+        for a in ast.walk(fn):
+            call = a.value if isinstance(a, ast.Assign) else None
+            if not (isinstance(call, ast.Call) and isinstance(call.func, ast.Attribute) and call.func.attr == "indices" and len(call.args) == 1):
+                continue
+            t = a.targets[0] if len(a.targets) == 1 else None
+            step_name = None
+            kept = None
+            if isinstance(t, (ast.Tuple, ast.List)) and len(t.elts) == 3 and all(isinstance(e, ast.Name) for e in t.elts):
+                step_name, kept = t.elts[2].id, True
+                used = step_name != "_" and any(isinstance(x, ast.Name) and x.id == step_name and isinstance(x.ctx, ast.Load) for x in ast.walk(fn))
+            elif isinstance(t, ast.Name):
+                used = any(isinstance(x, ast.Subscript) and isinstance(x.value, ast.Name) and x.value.id == t.id and const(x.slice) == 2 for x in ast.walk(fn)) \
+                    or any(isinstance(x, ast.Starred) and isinstance(x.value, ast.Name) and x.value.id == t.id for x in ast.walk(fn))
+                kept = True
+            if kept:
+                n_sites += 1
+                desc_s = "a slice key normalised with slice.indices keeps its step"
+                where_s = prog.loc(fi, a) if fi is not None else "fixture"
+                if used:
+                    res.ok("SLICE", short, desc_s, where_s)
+                else:
+                    res.bad("SLICE", short, desc_s, where_s,
+                            f"`{ast.unparse(a)[:70]}` drops the step: a strided key (s[a:b:2]) then selects every position of [a, b), so the read / "
+                            "write touches entries the same key on a dense tensor leaves alone")
         raw = [a for a in ast.walk(fn) if isinstance(a, ast.Attribute) and a.attr in ("start", "stop", "step") and isinstance(a.ctx, ast.Load)
                and not (isinstance(a.value, ast.Name) and a.value.id in ("self", "np"))]
         if not raw:
@@ -211,6 +236,12 @@ def g(key, shape):
     if key.stop is None:
         return shape
     return max(shape, key.stop)
+def h(region, subs, n):
+    start, stop, _ = region.indices(n)
+    return (subs >= start) & (subs < stop)
+def k(region, n):
+    start, stop, step = region.indices(n)
+    return range(start, stop, step)
 """
 
 
@@ -266,7 +297,7 @@ def check(prog: Program, res: Result, tier: str) -> None:
     from ..report import Result as _R2
     probe = _R2("C04")
     slice_norm(prog, probe, tree=ast.parse(SLICE_FIXTURE))
-    if sorted(i.verdict for i in probe.instances) != ["OK", "VIOLATION"]:
+    if sorted(i.verdict for i in probe.instances) != ["OK", "OK", "VIOLATION", "VIOLATION"]:
         raise AnalysisError(f"SLICE fixtures not recognised: {[(i.verdict, i.detail[:40]) for i in probe.instances]}")
     sorter_rule(prog, res)
     # expected count on the tree is zero: keep a positive fixture so that the rule cannot pass vacuously for ever
